@@ -362,6 +362,10 @@ func (mc *Chain) VerifyBlock(ctx context.Context, b *block.Block) (
 				return err
 			}
 
+			if c > mc.ChainConfig.MaxBlockCost()-cost {
+				// the sum would exceed the limit (and could overflow int)
+				return block.ErrCostTooBig
+			}
 			cost += c
 			costs = append(costs, c)
 			return nil
@@ -976,7 +980,7 @@ func txnIterHandlerFunc(
 			}
 		}
 
-		if tii.cost+cost >= mc.ChainConfig.MaxBlockCost() {
+		if cost >= mc.ChainConfig.MaxBlockCost()-tii.cost {
 			logging.Logger.Debug("generate block (too big cost, skipping)")
 			return true, nil
 		}
@@ -1171,7 +1175,7 @@ func (mc *Chain) generateBlock(ctx context.Context, b *block.Block,
 			logging.Logger.Debug("Bad transaction cost", zap.Error(err), zap.String("txn_hash", txn.Hash))
 			break
 		}
-		if iterInfo.cost+cost >= mc.ChainConfig.MaxBlockCost() {
+		if cost >= mc.ChainConfig.MaxBlockCost()-iterInfo.cost {
 			logging.Logger.Debug("generate block (too big cost, skipping)")
 			break
 		}
